@@ -383,6 +383,16 @@ func VerifC25Write() {
 	returned = true
 	vAssert(returned, "Write returned")
 	vCover("write: returned")
+	if mode == 2 && !second && event <= verifC25EvDeadlinePast {
+		// The Write timed out while it waited for a message buffer, possibly
+		// holding the stream's window token.  With the deadline cleared and the
+		// buffer back, the next Write has everything it needs: it must not hang.
+		s.SetWriteDeadline(time.Time{})
+		m.writeBufferAvailable <- taken
+		count, err := s.Write(make([]byte, length)) // a deadlock here = Write hangs with window and buffer available
+		vCover("write: after a timed-out write")
+		vAssert(count == length && err == nil, "progress: a Write after a timed-out Write completes when window and buffer are available")
+	}
 	if quiet && second && event != verifC25EvDeadlinePreset {
 		vCover("write: blocked behind another writer")
 	}
